@@ -88,6 +88,21 @@ func decorate(r *rand.Rand, index int, s reconlib.Scenario) reconlib.Scenario {
 	if r.Intn(4) == 0 {
 		s.CloseFails = "broken" // closing a transport whose link is already broken reports an error
 	}
+	if r.Intn(5) == 0 {
+		// slow keepalive: unless the transport reports the failure itself, a request of the application is the first to
+		// notice the outage (the stream still has to be resumed on the connection that request brings about)
+		s.PingMs = 30000
+		s.OutageCalls = []string{"metadata"}
+		for i := range s.Ups {
+			// an ack timeout is only configured where an outage is noticed well inside it (see above); with a 30 s
+			// keepalive a black-holed link delays acks beyond it, and giving up on a chunk after the configured
+			// ack timeout is what that option means
+			s.Ups[i].AckTimeoutMs = 0
+		}
+	}
+	if r.Intn(3) == 0 {
+		s.AliasFromZero = true // stream alias 0 is in use on every connection
+	}
 	return s
 }
 
